@@ -35,12 +35,13 @@ PROPS = {
     "C15": {
         "level": "proof",
         "verus": ["schema_rules", "types", "impl_args", "subtype"],
-        "explanation": "KERNEL ONLY: five of the mechanisms behind 'acceptance implies these invariants'. Verus proves for every input: validate_type_system_name reports a name exactly when it starts with `__` and "
+        "explanation": "KERNEL ONLY: eight of the mechanisms behind 'acceptance implies these invariants'. Verus proves for every input: validate_type_system_name reports a name exactly when it starts with `__` and "
                        "is not located in the built-in file (Reserved Names); BuiltInScalars::record_type_ref says whether a name is a built-in scalar and records it as used-and-defined / used-and-undefined "
                        "according to the schema's type map, all_used compares the counts (the bookkeeping that decides which built-in scalars stay in a valid schema's type map); validate_implementation_field_types "
                        "reports exactly one diagnostic, in order, for every implemented-interface field whose type the implementor's field does not satisfy (IsValidImplementationFieldType), none skipped; validate_implementation_field_arguments (unit impl_args) does the same for the argument contract (missing argument, argument of a different type, additional required argument). "
                        "validate_schema itself: its effect on the type map is `types_after` -- every definition stays except built-in scalar definitions nothing refers to; a built-in scalar that is referred to but not defined is inserted "
-                       "as the table's definition -- including that the `all_used` shortcut is harmless (set cardinalities) and that every used-and-undefined name is inserted.",
+                       "as the table's definition -- including that the `all_used` shortcut is harmless (set cardinalities) and that every used-and-undefined name is inserted. Unit subtype: Schema::is_input_type / is_output_type == IsInputType / IsOutputType "
+                       "(wrappers looked through; Scalar, Enum, InputObject resp. everything but InputObject; an undefined name is neither) -- the question the field / argument / variable validators ask to decide 'referenced types have the right kind' -- and Schema::is_subtype == the possible-type relation.",
         "assumptions": ["HashMap / HashSet / IndexMap / IndexSet behave as maps / sets / sequences keyed by the name's text (shims); retain keeps exactly the entries its closure accepts", "Schema::is_subtype's relation is no longer assumed (unit subtype)",
                         "the per-definition validators called by validate_schema are opaque; assumed of each: it calls record_type_ref for exactly the type references of the definition it is given, and leaves the table alone"],
         "not_decided": ["the property's main clause: that ACCEPTANCE by the whole of validate_schema implies every listed invariant (root types, referenced types exist with the right kind, argument contracts, "
